@@ -1,8 +1,12 @@
 (* C17: the rewrites documented as identities preserve the value of every term
-   that has one (Spec/Semantics.v).  Statements only; proofs in Proofs/Rw. *)
-From DD Require Import Spec.Semantics Model.Rewrites.
+   that has one (Spec/Semantics.v) and the sort of every well-sorted term
+   (Spec/Typing.v).  Statements only; proofs in Proofs/Rw. *)
+From DD Require Import Spec.Semantics Spec.Typing Model.Rewrites.
 From DD Require Import Proofs.Rw.Range Proofs.Rw.BoolRw Proofs.Rw.BvConst Proofs.Rw.BvRw1 Proofs.Rw.BvRw2 Proofs.Rw.BvRw3 Proofs.Rw.BvRw4.
+From DD Require Import Proofs.Rw.SortRw1 Proofs.Rw.SortRw2 Proofs.Rw.SortRw3 Proofs.Rw.Examples.
 Local Open Scope list_scope.
+
+(* ================= value preservation ================= *)
 
 (* ---- Boolean and arithmetic rewrites ---- *)
 Theorem rw_bool_double_neg_identity : forall rho e e' l v,
@@ -112,3 +116,261 @@ Theorem rw_bv_extract_zext_identity : forall bw rho e e' l v,
   rw_bv_extract_zext bw e = Some l -> In e' l -> eval rho e = Some v -> eval rho e' = Some v.
 Proof. exact bv_extract_zext_identity. Qed.
 Print Assumptions rw_bv_extract_zext_identity.
+
+(* ================= sort preservation ================= *)
+Theorem rw_bool_double_neg_sort : forall g e e' l s,
+  rw_bool_double_neg e = Some l -> In e' l -> type_of g e = Some s -> type_of g e' = Some s.
+Proof. exact bool_double_neg_sort. Qed.
+Print Assumptions rw_bool_double_neg_sort.
+
+Theorem rw_bool_xor_binary_sort : forall g e e' l s,
+  rw_bool_xor_binary e = Some l -> In e' l -> type_of g e = Some s -> type_of g e' = Some s.
+Proof. exact bool_xor_binary_sort. Qed.
+Print Assumptions rw_bool_xor_binary_sort.
+
+Theorem rw_bool_de_morgan_sort : forall g e e' l s,
+  rw_bool_de_morgan e = Some l -> In e' l -> type_of g e = Some s -> type_of g e' = Some s.
+Proof. exact bool_de_morgan_sort. Qed.
+Print Assumptions rw_bool_de_morgan_sort.
+
+Theorem rw_bool_implication_sort : forall g h a b e' l s,
+  rw_bool_implication (T [L h; a; b]) = Some l -> In e' l ->
+  type_of g (T [L h; a; b]) = Some s -> type_of g e' = Some s.
+Proof. exact bool_implication_sort. Qed.
+Print Assumptions rw_bool_implication_sort.
+
+Theorem rw_bool_false_eq_sort : forall g h a b e' l s,
+  assoc (lit "false") (e_vars g) = None ->
+  rw_bool_false_eq (T [L h; a; b]) = Some l -> In e' l ->
+  type_of g (T [L h; a; b]) = Some s -> type_of g e' = Some s.
+Proof. exact bool_false_eq_sort. Qed.
+Print Assumptions rw_bool_false_eq_sort.
+
+(* the relation is not one of the two non-SMT-LIB names the mutator also accepts *)
+Theorem rw_arith_negate_relation_sort : forall g h r x y e' l s,
+  iss r "!=" = false -> iss r "<>" = false ->
+  rw_arith_negate_relation (T [L h; T [L r; x; y]]) = Some l -> In e' l ->
+  type_of g (T [L h; T [L r; x; y]]) = Some s -> type_of g e' = Some s.
+Proof. exact arith_negate_relation_sort. Qed.
+Print Assumptions rw_arith_negate_relation_sort.
+
+Theorem rw_bv_reflexive_nand_sort : forall g e e' l s,
+  rw_bv_reflexive_nand e = Some l -> In e' l -> type_of g e = Some s -> type_of g e' = Some s.
+Proof. exact bv_reflexive_nand_sort. Qed.
+Print Assumptions rw_bv_reflexive_nand_sort.
+
+Theorem rw_bv_double_neg_sort : forall g e e' l s,
+  rw_bv_double_neg e = Some l -> In e' l -> type_of g e = Some s -> type_of g e' = Some s.
+Proof. exact bv_double_neg_sort. Qed.
+Print Assumptions rw_bv_double_neg_sort.
+
+(* literals are bound neither as symbols nor as constructors; is_bv_term is sound *)
+Theorem rw_bv_ite_to_bvcomp_sort : forall is_bv_term g h eq x y rest e' l s,
+  (forall s0, is_bv_const (L s0) = true -> assoc s0 (e_vars g) = None /\ find_cons (e_dts g) s0 = None) ->
+  (forall t st, is_bv_term t = true -> type_of g t = Some st -> Typing.bv_width st <> None) ->
+  rw_bv_ite_to_bvcomp is_bv_term (T (L h :: T [L eq; x; y] :: rest)) = Some l -> In e' l ->
+  type_of g (T (L h :: T [L eq; x; y] :: rest)) = Some s -> type_of g e' = Some s.
+Proof. exact bv_ite_to_bvcomp_sort. Qed.
+Print Assumptions rw_bv_ite_to_bvcomp_sort.
+
+Theorem rw_bv_elim_bvcomp_sort : forall bw g h c f x y e' l s,
+  rw_bv_elim_bvcomp bw (T [L h; c; T (L f :: [x; y])]) = Some l -> In e' l ->
+  type_of g (T [L h; c; T (L f :: [x; y])]) = Some s -> type_of g e' = Some s.
+Proof. exact bv_elim_bvcomp_sort. Qed.
+Print Assumptions rw_bv_elim_bvcomp_sort.
+
+Theorem rw_bv_normalize_sort : forall g e e' l s,
+  (forall s0, is_bv_const (L s0) = true -> assoc s0 (e_vars g) = None /\ find_cons (e_dts g) s0 = None) ->
+  rw_bv_normalize e = Some l -> In e' l -> type_of g e = Some s -> type_of g e' = Some s.
+Proof. exact bv_normalize_sort. Qed.
+Print Assumptions rw_bv_normalize_sort.
+
+Theorem rw_bv_eval_extend_sort : forall g e e' l s,
+  (forall s0, is_bv_const (L s0) = true -> assoc s0 (e_vars g) = None /\ find_cons (e_dts g) s0 = None) ->
+  rw_bv_eval_extend e = Some l -> In e' l -> type_of g e = Some s -> type_of g e' = Some s.
+Proof. exact bv_eval_extend_sort. Qed.
+Print Assumptions rw_bv_eval_extend_sort.
+
+Theorem rw_bv_extract_const_sort : forall g e e' l s,
+  (forall s0, is_bv_const (L s0) = true -> assoc s0 (e_vars g) = None /\ find_cons (e_dts g) s0 = None) ->
+  rw_bv_extract_const e = Some l -> In e' l -> type_of g e = Some s -> type_of g e' = Some s.
+Proof. exact bv_extract_const_sort. Qed.
+Print Assumptions rw_bv_extract_const_sort.
+
+Theorem rw_bv_merge_extend_sort : forall g e e' l s,
+  rw_bv_merge_extend e = Some l -> In e' l -> type_of g e = Some s -> type_of g e' = Some s.
+Proof. exact bv_merge_extend_sort. Qed.
+Print Assumptions rw_bv_merge_extend_sort.
+
+(* the width oracle agrees with the typing *)
+Theorem rw_bv_extract_zext_sort : forall bw g e e' l s,
+  (forall t st, type_of g t = Some st -> bw t = (-1)%Z \/ Some (Z.to_N (bw t)) = Typing.bv_width st) ->
+  rw_bv_extract_zext bw e = Some l -> In e' l -> type_of g e = Some s -> type_of g e' = Some s.
+Proof. exact bv_extract_zext_sort. Qed.
+Print Assumptions rw_bv_extract_zext_sort.
+
+(* ================= examples: the premises are satisfiable ================= *)
+Example ex_bool_double_neg :
+  let e := T [lf "not"; T [lf "not"; lf "p"]] in
+  rw_bool_double_neg e = Some [lf "p"] /\ eval ex_rho e = Some (VB true) /\ type_of ex_g e = Some sBool.
+Proof. vm_compute. repeat split. Qed.
+
+Example ex_bool_xor_binary :
+  let e := T [lf "xor"; lf "p"; lf "q"] in
+  rw_bool_xor_binary e = Some [T [lf "distinct"; lf "p"; lf "q"]] /\ eval ex_rho e = Some (VB true) /\ type_of ex_g e = Some sBool.
+Proof. vm_compute. repeat split. Qed.
+
+Example ex_bool_de_morgan :
+  let e := T [lf "not"; T [lf "and"; lf "p"; lf "q"; lf "p"]] in
+  rw_bool_de_morgan e = Some [T [lf "or"; T [lf "not"; lf "p"]; T [lf "not"; lf "q"]; T [lf "not"; lf "p"]]] /\
+  eval ex_rho e = Some (VB true) /\ type_of ex_g e = Some sBool.
+Proof. vm_compute. repeat split. Qed.
+
+Example ex_bool_implication :
+  let e := T [lf "=>"; lf "p"; lf "q"] in
+  rw_bool_implication e = Some [T [lf "or"; T [lf "not"; lf "p"]; lf "q"]] /\ eval ex_rho e = Some (VB false) /\ type_of ex_g e = Some sBool.
+Proof. vm_compute. repeat split. Qed.
+
+Example ex_bool_false_eq :
+  let e := T [lf "="; lf "false"; lf "q"] in
+  rw_bool_false_eq e = Some [T [lf "not"; lf "q"]] /\ eval ex_rho e = Some (VB true) /\ type_of ex_g e = Some sBool /\
+  lookup_v (lit "false") ex_rho = None /\ assoc (lit "false") (e_vars ex_g) = None.
+Proof. vm_compute. repeat split. Qed.
+
+Example ex_arith_negate_relation :
+  let e := T [lf "not"; T [lf "<"; lf "i"; lf "j"]] in
+  rw_arith_negate_relation e = Some [T [lf ">="; lf "i"; lf "j"]] /\ eval ex_rho e = Some (VB true) /\ type_of ex_g e = Some sBool.
+Proof. vm_compute. repeat split. Qed.
+
+Example ex_bv_reflexive_nand :
+  let e := T [lf "bvnand"; lf "x"; lf "x"] in
+  rw_bv_reflexive_nand e = Some [T [lf "bvnot"; lf "x"]] /\ eval ex_rho e = Some (VV 4 5) /\ type_of ex_g e = Some (sBV 4).
+Proof. vm_compute. repeat split. Qed.
+
+Example ex_bv_double_neg :
+  let e := T [lf "bvneg"; T [lf "bvneg"; lf "x"]] in
+  rw_bv_double_neg e = Some [lf "x"] /\ eval ex_rho e = Some (VV 4 10) /\ type_of ex_g e = Some (sBV 4).
+Proof. vm_compute. repeat split. Qed.
+
+Example ex_bv_double_neg_applied : eval ex_rho (lf "z") = Some (VV 4 15).
+Proof.
+  apply (rw_bv_double_neg_identity ex_rho (T [lf "bvnot"; T [lf "bvnot"; lf "z"]]) (lf "z") [lf "z"] (VV 4 15) ex_rho_ok);
+    [vm_compute; reflexivity | left; reflexivity | vm_compute; reflexivity].
+Qed.
+
+Example ex_bv_ite_to_bvcomp :
+  let e := T [lf "ite"; T [lf "="; lf "x"; lf "y"]; lf "#b1"; bvl "bv0" "1"] in
+  rw_bv_ite_to_bvcomp ex_is_bv e = Some [T [lf "bvcomp"; lf "x"; lf "y"]] /\
+  eval ex_rho e = Some (VV 1 0) /\ type_of ex_g e = Some (sBV 1).
+Proof. vm_compute. repeat split. Qed.
+
+Example ex_bv_ite_to_bvcomp_sort_applied : type_of ex_g (T [lf "bvcomp"; lf "x"; lf "y"]) = Some (sBV 1).
+Proof.
+  apply (rw_bv_ite_to_bvcomp_sort ex_is_bv ex_g (lit "ite") (lit "=") (lf "x") (lf "y") [lf "#b1"; lf "#b0"]
+           _ [T [lf "bvcomp"; lf "x"; lf "y"]] _ ex_g_lit_free ex_is_bv_sound);
+    [vm_compute; reflexivity | left; reflexivity | vm_compute; reflexivity].
+Qed.
+
+Example ex_bv_elim_bvcomp :
+  let e := T [lf "="; lf "#b0"; T [lf "bvcomp"; lf "x"; lf "y"]] in
+  rw_bv_elim_bvcomp ex_bw e = Some [T [lf "not"; T [lf "="; lf "x"; lf "y"]]] /\
+  eval ex_rho e = Some (VB true) /\ type_of ex_g e = Some sBool.
+Proof. vm_compute. repeat split. Qed.
+
+Example ex_bv_elim_bvcomp_applied : eval ex_rho (T [lf "="; lf "x"; lf "y"]) = Some (VB false).
+Proof.
+  apply (rw_bv_elim_bvcomp_identity ex_bw ex_rho (lit "=") (bvl "bv1" "1") (lit "bvcomp") (lf "x") (lf "y")
+           _ [T [lf "="; lf "x"; lf "y"]] _ ex_rho_lit_free ex_bw_sound);
+    [vm_compute; reflexivity | left; reflexivity | vm_compute; reflexivity].
+Qed.
+
+Example ex_bv_normalize :
+  let e := lf "#x0a1B" in
+  rw_bv_normalize e = Some [bvl "bv2587" "16"] /\ eval ex_rho e = Some (VV 16 2587) /\ type_of ex_g e = Some (sBV 16).
+Proof. vm_compute. repeat split. Qed.
+
+Example ex_bv_eval_extend_sign :
+  let e := sx "3" (lf "#b101") in
+  rw_bv_eval_extend e = Some [lf "#b111101"] /\ eval ex_rho e = Some (VV 6 61) /\ type_of ex_g e = Some (sBV 6).
+Proof. vm_compute. repeat split. Qed.
+
+Example ex_bv_eval_extend_zero_width1 :
+  let e := sx "3" (bvl "bv0" "1") in
+  rw_bv_eval_extend e = Some [bvl "bv0" "4"] /\ eval ex_rho e = Some (VV 4 0) /\ type_of ex_g e = Some (sBV 4).
+Proof. vm_compute. repeat split. Qed.
+
+Example ex_bv_extract_const :
+  let e := ext "5" "2" (lf "#x05") in
+  rw_bv_extract_const e = Some [lf "#b0001"] /\ eval ex_rho e = Some (VV 4 1) /\ type_of ex_g e = Some (sBV 4).
+Proof. vm_compute. repeat split. Qed.
+
+Example ex_bv_merge_extend :
+  let e := sx "2" (sx "1" (sx "1" (lf "o"))) in
+  rw_bv_merge_extend e = Some [sx "4" (lf "o")] /\ eval ex_rho e = Some (VV 5 31) /\ type_of ex_g e = Some (sBV 5).
+Proof. vm_compute. repeat split. Qed.
+
+Example ex_bv_extract_zext_across :
+  let e := ext "5" "2" (zx "4" (lf "x")) in
+  rw_bv_extract_zext ex_bw e = Some [zx "2" (ext "3" "2" (lf "x"))] /\
+  eval ex_rho e = Some (VV 4 2) /\ type_of ex_g e = Some (sBV 4) /\ rw_bv_extract_zext ex_bw_ty e = rw_bv_extract_zext ex_bw e.
+Proof. vm_compute. repeat split. Qed.
+
+Example ex_bv_extract_zext_zeros :
+  let e := ext "7" "4" (zx "4" (lf "x")) in
+  rw_bv_extract_zext ex_bw e = Some [bvl "bv0" "4"] /\ eval ex_rho e = Some (VV 4 0).
+Proof. vm_compute. repeat split. Qed.
+
+Example ex_bv_extract_zext_operand :
+  let e := ext "3" "0" (zx "4" (lf "z")) in
+  rw_bv_extract_zext ex_bw e = Some [ext "3" "0" (lf "z")] /\ eval ex_rho e = Some (VV 4 15).
+Proof. vm_compute. repeat split. Qed.
+
+Example ex_bv_extract_zext_applied : eval ex_rho (zx "2" (ext "3" "2" (lf "x"))) = Some (VV 4 2).
+Proof.
+  apply (rw_bv_extract_zext_identity ex_bw ex_rho (ext "5" "2" (zx "4" (lf "x"))) _ [zx "2" (ext "3" "2" (lf "x"))] _
+           ex_rho_ok ex_bw_sound);
+    [vm_compute; reflexivity | left; reflexivity | vm_compute; reflexivity].
+Qed.
+
+Example ex_bv_extract_zext_sort_applied : type_of ex_g (zx "2" (ext "3" "2" (lf "x"))) = Some (sBV 4).
+Proof.
+  apply (rw_bv_extract_zext_sort ex_bw_ty ex_g (ext "5" "2" (zx "4" (lf "x"))) _ [zx "2" (ext "3" "2" (lf "x"))] _
+           ex_bw_ty_sound);
+    [vm_compute; reflexivity | left; reflexivity | vm_compute; reflexivity].
+Qed.
+
+(* ================= why the restrictions are needed ================= *)
+(* n-ary implication: the model chains the implications, SMT-LIB associates to the right *)
+Example cex_bool_implication_nary :
+  let e := T [lf "=>"; lf "p"; lf "q"; lf "q"] in
+  exists e', rw_bool_implication e = Some [e'] /\ eval ex_rho e = Some (VB true) /\ eval ex_rho e' = Some (VB false).
+Proof. eexists. vm_compute. repeat split. Qed.
+
+(* negation of a chained relation *)
+Example cex_arith_negate_relation_nary :
+  let e := T [lf "not"; T [lf "<"; lf "j"; lf "i"; lf "j"]] in
+  exists e', rw_arith_negate_relation e = Some [e'] /\ eval ex_rho e = Some (VB true) /\ eval ex_rho e' = Some (VB false).
+Proof. eexists. vm_compute. repeat split. Qed.
+
+Example cex_arith_negate_distinct_nary :
+  let e := T [lf "not"; T [lf "distinct"; lf "i"; lf "i"; lf "j"]] in
+  exists e', rw_arith_negate_relation e = Some [e'] /\ eval ex_rho e = Some (VB true) /\ eval ex_rho e' = Some (VB false).
+Proof. eexists. vm_compute. repeat split. Qed.
+
+(* a user function named != : the rewritten term is ill-sorted *)
+Example cex_arith_negate_relation_user_neq :
+  let e := T [lf "not"; T [lf "!="; lf "i"; lf "p"]] in
+  exists e', rw_arith_negate_relation e = Some [e'] /\ type_of ex_g_neq e = Some sBool /\ type_of ex_g_neq e' = None.
+Proof. eexists. vm_compute. repeat split. Qed.
+
+(* the evaluation of = does not check the sorts: an ill-sorted equality has a value *)
+Example cex_bool_false_eq_ill_sorted :
+  let e := T [lf "="; lf "false"; lf "i"] in
+  exists e', rw_bool_false_eq e = Some [e'] /\ eval ex_rho e = Some (VB false) /\ eval ex_rho e' = None /\ type_of ex_g e = None.
+Proof. eexists. vm_compute. repeat split. Qed.
+
+(* an unsound is_bv_term makes the ite rewrite ill-sorted *)
+Example cex_bv_ite_to_bvcomp_unsound_oracle :
+  let e := T [lf "ite"; T [lf "="; lf "p"; lf "q"]; lf "#b1"; lf "#b0"] in
+  exists e', rw_bv_ite_to_bvcomp (fun _ => true) e = Some [e'] /\ type_of ex_g e = Some (sBV 1) /\ type_of ex_g e' = None.
+Proof. eexists. vm_compute. repeat split. Qed.
